@@ -30,7 +30,7 @@ VERIF = Path(__file__).resolve().parent.parent
 LEAN = VERIF / "lean"
 REPO = Path(os.environ.get("ELIOT_REPO", "/repo"))
 EVIDENCE = Path(os.environ.get("VERIF_EVIDENCE_DIR", str(VERIF / "evidence")))  # development runs against a scratch copy may redirect it
-REPLAYS = VERIF / "replays"
+REPLAYS = Path(os.environ.get("VERIF_REPLAY_DIR", str(VERIF / "replays")))
 KNOWN = VERIF / "KNOWN_FINDINGS.jsonl"
 PY = "/venv/bin/python"
 
@@ -277,6 +277,11 @@ def lean_stage(ctx, mod):
             r2 = _run(["lake", "build", module], LEAN, 900)
             ok2 = r2.returncode == 0
             detail = "" if ok2 else _first_error((r2.stdout + r2.stderr)[-4000:])
+            if ok2 and not sk_audit:
+                # a skeleton module is a handful of `decide`d facts about generated tables: no escape hatches there either
+                tok0 = forbidden_tokens([module])
+                if tok0 or "declaration uses 'sorry'" in (r2.stdout + r2.stderr):
+                    ok2, detail = False, "forbidden token in %s: %s" % (module, "; ".join(tok0) or "sorry")
             if ok2 and sk_audit:
                 a = _run(["lake", "env", "lean", sk_audit], LEAN, 900)
                 out = a.stdout + a.stderr
@@ -305,10 +310,23 @@ def _first_error(log):
     return log.strip()[-400:]
 
 
+_DRIVERS_BUILT = set()
+
+
 def lean_driver(driver, lines, timeout=1200):
     """Pipe `lines` (JSON-able objects, one per line) through `lake env lean --run <driver>`;
     returns the parsed output objects (one per input line)."""
     inp = "".join(canon(l) + "\n" for l in lines)
+    if driver not in _DRIVERS_BUILT:
+        # `lean --run` loads the compiled imports as they are: bring them up to date with the (possibly just regenerated)
+        # sources first - a no-op when nothing changed
+        mods = re.findall(r"^import\s+((?:Eliot|Driver)[\w.]*)", (LEAN / driver).read_text(), re.M)
+        if mods:
+            with _Lock():
+                b = _run(["lake", "build"] + mods, LEAN, 1500)
+            if b.returncode != 0:
+                raise InfraError("imports of model driver %s do not build: %s" % (driver, (b.stdout + b.stderr)[-1500:]))
+        _DRIVERS_BUILT.add(driver)
     r = _run(["lake", "env", "lean", "--run", driver], LEAN, timeout, input=inp)
     if r.returncode != 0:
         raise InfraError("model driver %s failed: %s" % (driver, (r.stderr or r.stdout)[-2000:]))
@@ -390,7 +408,16 @@ def write_evidence(ctx, mod, nviol):
     ev = dict(property_id=ctx.prop, tier=ctx.tier, seed=ctx.seed, level="proof", coverage=cov,
               assumptions=list(getattr(mod, "ASSUMPTIONS", [])), wall_s=round(time.time() - ctx.t0, 2),
               violations=nviol)
-    (EVIDENCE / ("%s.json" % ctx.prop)).write_text(json.dumps(ev, indent=1, sort_keys=True, default=str))
+    target = EVIDENCE
+    if ctx.extra.get("lean_stage_skipped"):
+        # a development run without the build/audit stage decides nothing about the theorems: its record is kept apart from
+        # the evidence files and says so
+        ev["level"] = "proof"
+        ev["coverage"]["notes"] = list(ev["coverage"].get("notes") or []) + ["DEVELOPMENT RUN: Lean stage skipped (--no-lean); not evidence"]
+        if "VERIF_EVIDENCE_DIR" not in os.environ:
+            target = Path("/tmp/verif-no-lean-evidence")
+    target.mkdir(parents=True, exist_ok=True)
+    (target / ("%s.json" % ctx.prop)).write_text(json.dumps(ev, indent=1, sort_keys=True, default=str))
 
 
 def _restore_generated():
@@ -439,6 +466,8 @@ def main(argv):
             return finish(ctx, mod)
         if not args.no_lean:
             lean_stage(ctx, mod)
+        else:
+            ctx.extra["lean_stage_skipped"] = True
         mod.run(ctx)
         return finish(ctx, mod)
     except InfraError as e:
